@@ -64,6 +64,10 @@ struct EvalHist {
     any_setbest: bool,
 }
 
+fn serde_json_string(s: &str) -> String {
+    format!("{{\"history\": \"{}\"}}", s.replace('\\', "\\\\").replace('"', "\\\""))
+}
+
 /// Turn one run's event log into `eval_history` request lines with the implementation's answers.
 pub fn histories(log: &[(std::thread::ThreadId, Event)], st: &mut Stats) -> Vec<(String, String)> {
     let mut evals: BTreeMap<u64, EvalHist> = BTreeMap::new();
@@ -155,6 +159,37 @@ pub fn histories(log: &[(std::thread::ThreadId, Event)], st: &mut Stats) -> Vec<
         );
         if h.finished.len() >= 2 {
             st.count("histories_multi_trial");
+        }
+        // C17 stated directly on the observed history: the reported winner is a completed trial and no
+        // completed trial of this evaluator is better under (size, raw bytes, filter number, later submission)
+        if let Some(k) = w {
+            let rule = |nth: usize, f: u8, v: &(usize, usize, usize, bool)| (v.0 + v.1, v.2, f, std::cmp::Reverse(nth));
+            let fitted: Vec<_> = h.finished.iter().filter(|(_, v)| v.3).collect();
+            match h.finished.get(&(k.0, k.1 as u8)).filter(|v| v.3) {
+                None if !fitted.is_empty() => st.fail(
+                    "winner-not-completed",
+                    format!("selected candidate {}:{} is not a completed trial of this evaluator", k.0, k.1 as u8),
+                    serde_json_string(&req),
+                ),
+                Some(wv) => {
+                    let wk = rule(k.0, k.1 as u8, wv);
+                    if let Some(((n, f), v)) = fitted.iter().map(|(a, b)| (**a, **b)).find(|((n, f), v)| rule(*n, *f, v) < wk) {
+                        st.count("tie_rule_broken");
+                        st.fail(
+                            "winner-not-rule-minimum",
+                            format!(
+                                "selected {}:{} (size {}, raw {}) although completed trial {}:{} (size {}, raw {}) precedes it under the rule",
+                                k.0, k.1 as u8, wv.0 + wv.1, wv.2, n, f, v.0 + v.1, v.2
+                            ),
+                            serde_json_string(&req),
+                        );
+                    }
+                    if fitted.iter().filter(|(_, v)| v.0 + v.1 == wv.0 + wv.1).count() >= 2 {
+                        st.count("histories_with_size_tie_at_minimum");
+                    }
+                }
+                None => {}
+            }
         }
         out.push((req, ans));
     }
